@@ -349,6 +349,11 @@ impl FilePersist {
             return Err(e.into());
         }
 
+        // The rename only survives a power loss once the directory is fsynced. Callers
+        // discard the previous durable copy of the data right after this returns (WAL
+        // entries in flush, old batch files in compact), so it must be durable now.
+        sync_directory(&dir);
+
         Ok(())
     }
 
@@ -796,6 +801,12 @@ fn write_updates_parquet(path: &PathBuf, updates: &[Update]) -> StorageResult<()
 
     // Atomic rename (POSIX guarantees atomicity)
     fs::rename(&tmp_path, path)?;
+
+    // Make the new directory entry durable before any metadata refers to this file:
+    // otherwise a power loss can keep the metadata rename and lose this one.
+    if let Some(parent) = path.parent() {
+        sync_directory(parent);
+    }
 
     Ok(())
 }
